@@ -83,6 +83,13 @@ def mk(spec: Tuple[str, Any, Any]):
     if shape == "str_utf8":
         d = {"jsonrpc": "2.0", "id": mid, "result": params}
         return json.dumps(d, separators=(",", ":"), ensure_ascii=False), d
+    if shape == "str_pretty":
+        # a pre-serialised string need not be compact: line breaks between tokens are insignificant JSON whitespace
+        d = {"jsonrpc": "2.0", "id": mid, "method": "tools/call", "params": params}
+        return json.dumps(d, indent=2, ensure_ascii=False), d
+    if shape == "str_trailing_newline":
+        d = {"jsonrpc": "2.0", "method": "notifications/t", "params": params}
+        return json.dumps(d) + "\r\n", d
     if shape == "unser_object":
         return object(), UNSER
     if shape == "unser_set":
@@ -114,7 +121,8 @@ def mk(spec: Tuple[str, Any, Any]):
 UNSER = ("UNSER",)
 GOOD_SHAPES = ["typed_request", "typed_request_noparams", "typed_notification", "typed_response", "typed_error",
                "legacy_request", "legacy_notification", "legacy_response", "dict", "dict_notification", "str_ascii", "str_utf8",
-               "direct_request", "direct_notification", "direct_response", "direct_error", "direct_legacy", "direct_validate"]
+               "direct_request", "direct_notification", "direct_response", "direct_error", "direct_legacy", "direct_validate",
+               "str_pretty", "str_trailing_newline"]
 BAD_SHAPES = ["unser_object", "unser_set", "unser_circular", "unser_bytes", "surrogate_dict", "unser_surrogate_str",
               "unser_deep", "unser_badrepr"]
 IDS = [1, 0, "a", "123", 2**63, "\u00fc"]
@@ -224,6 +232,66 @@ def exec_case(ctx, seq) -> None:
     ctx.record(case, shape=len(lines), nontrivial=nontrivial,
                cls=("with_unser" if any(e is UNSER for e in expected) else "clean") + f":len{min(len(seq), 4)}",
                sample={"seq": [list(s) for s in seq][:4], "lines": [ln[:100].decode("utf-8", "replace") for ln in lines][:4]})
+
+
+def exit_right_after_send_tier(ctx):
+    """The application sends and leaves the context at once (a last notification, a cancellation notice): what the
+    write stream accepted must still reach the child."""
+    import importlib
+    from chuk_mcp.transports.stdio.parameters import StdioParameters
+    from vf.recorders import OpenProcessPatch, ScriptedProcess
+    from vf.vloop import run_virtual
+    SC = importlib.import_module("chuk_mcp.transports.stdio.stdio_client")
+    rng = ctx.sub_rng("exitsend")
+    for k in range(16 if ctx.tier == "quick" else 200):
+        if not ctx.mine():
+            continue
+        n = rng.choice([1, 2, 5, 20, 99, 100, 101, 150])
+        seq = [(GOOD_SHAPES[(k + i) % len(GOOD_SHAPES)], PAYLOAD_STRINGS[(k + i) % len(PAYLOAD_STRINGS)], IDS[i % len(IDS)]) for i in range(n)]
+        objs, expected = [], []
+        for spec in seq:
+            try:
+                o, e = mk(tuple(spec))
+            except Exception:
+                continue
+            objs.append(o)
+            expected.append(e)
+        api = ("stdio_client", "client_object")[k % 2]
+        case = {"exit_right_after_send": True, "n": n, "api": api, "k": k}
+
+        async def main():
+            with OpenProcessPatch(lambda command, **kw: ScriptedProcess([], hold_open=True)) as patch:
+                if api == "stdio_client":
+                    async with SC.stdio_client(StdioParameters(command="x")) as (r, w):
+                        for o in objs:
+                            await w.send(o)
+                else:
+                    async with SC.StdioClient(StdioParameters(command="x")) as client:
+                        r, w = client.get_streams()
+                        for o in objs:
+                            await w.send(o)
+                return patch.spawned[0].stdin_bytes()
+        try:
+            data, _ = run_virtual(main, max_iterations=2_000_000)
+        except Exception as e:  # noqa
+            ctx.violation("writer_crashed_harness", f"exit right after send: {e!r}", case)
+            continue
+        ctx.count("sessions")
+        ctx.count("exit_right_after_send_sessions")
+        ctx.count("stdin_bytes", len(data))
+        got = []
+        for ln in data.split(b"\n")[:-1]:
+            try:
+                got.append(tagged(json.loads(ln.decode("utf-8"))))
+            except Exception:
+                got.append(("UNDECODABLE", ln[:60]))
+        want = [tagged(e) for e in expected]
+        if got != want:
+            mech = "message_lost_at_context_exit" if len(got) < len(want) and got == want[:len(got)] else "content_altered"
+            ctx.violation(mech, f"{len(want)} messages were accepted on the write stream right before the context was left; "
+                          f"{len(got)} reached the child", case)
+        ctx.record(case, shape=[len(got), len(want)], nontrivial=True, cls=f"exit_after_send:{'>=100' if n >= 100 else '<100'}",
+                   sample={"case": case, "accepted": len(want), "reached_child": len(got)})
 
 
 def two_writer_tier(ctx):
@@ -370,6 +438,7 @@ def run(ctx):
             break
         exec_case(ctx, seq)
     two_writer_tier(ctx)
+    exit_right_after_send_tier(ctx)
     if ctx.tier == "thorough" and ctx.shard[0] == 0:
         real_child_tier(ctx)
     ctx.require_reached("sessions")
@@ -379,6 +448,10 @@ def run(ctx):
 
 
 def replay(ctx, case):
+    if case.get("exit_right_after_send"):
+        ctx.notes.append("regenerated from the seed: re-running that tier")
+        exit_right_after_send_tier(ctx)
+        return
     if case.get("two_writers"):
         ctx.notes.append("two-writer cases are regenerated from the seed: re-running that tier")
         two_writer_tier(ctx)
